@@ -5,9 +5,10 @@ Tie:    stream `evalimpl`  real LiteralEvaluator.exec(node) on the members of ge
         stream `evalpy`    CPython eval() of the same member texts                                     vs  `evalPy`
         (floats: the model computes a TERM over the abstract float operations; the harness interprets every term the model asks
          about with CPython's float operations — the `oracle` lines — so nothing is rounded on the Lean side)
+        stream `unescape`  CPython's decoding of octal escapes in a literal body                       vs  `decodeOct`
 Search: on the real code alone: exec(e) == eval(e) with equal type, or an application error (Errors.*), on the same generator
-        plus the regions the theorems exclude (H1 big-int division, H2 triple-quoted / prefixed / escaped strings, H3 str() of a
-        string, H5 casts with two arguments).
+        including the formerly defective regions (big-int division, triple-quoted / prefixed strings, str() of a string, casts
+        with two arguments — repaired in /repo, a mismatch there is a regression) and escaped strings (known finding).
 """
 from __future__ import annotations
 
@@ -17,6 +18,7 @@ import operator
 import os
 import random
 import re
+import warnings
 from typing import Any
 
 from harness import common
@@ -27,18 +29,16 @@ PROP = 'C17'
 KNOWN_FUNCS = ['int', 'float', 'str', 'abs', 'len', 'bool']
 CHAIN_CLASSES = {'Sum', 'Term', 'ShiftBitwise', 'AndBitwise', 'XorBitwise', 'OrBitwise'}
 ALL_REGIONS = frozenset(['triple', 'prefix', 'escape', 'strstr', 'bigint', 'arity', 'upperhex', 'otherfn', 'badref', 'confuse', 'tilde', 'fmt'])
-# regions in which the theorems do not promise agreement (guards H1, H2, H3, H5a)
+# the one region in which the evaluator is known to differ (known finding): string tokens with escapes, joined as texts
 EXCLUDED_KEYS = {
-	'strstr': 'str-cast-of-string',
-	'triple': 'triple-quote-concat',
-	'bigdiv': 'int-truediv-rounding',
-	'arity2': 'int-cast-base-ignored',
 	'escape': 'escape-merge-concat',
-	'prefix': 'prefixed-string-verbatim',
 }
+# special regions a member gets at most ONE of (so that a finding is never attributed to the wrong one); all but `escape` were
+# defects that are repaired now (c8f7860, 8fac22f, e338962, b7e37da): a mismatch there is a regression and gets a `mismatch:` key
+SPECIAL_FEATURES = {'triple', 'prefix', 'escape', 'strstr', 'arity2', 'bigdiv'}
 MALFORMED_REGIONS = {'badref', 'confuse', 'tilde', 'otherfn', 'arity', 'upperhex', 'fmt'}
 REGION_FEATURE = {'triple', 'prefix', 'escape', 'strstr', 'arity'}
-KEY_PRIORITY = ['strstr', 'triple', 'arity2', 'prefix', 'escape', 'bigdiv']
+KEY_PRIORITY = ['escape']
 
 
 # ---------------------------------------------------------------------------------------------
@@ -95,14 +95,14 @@ class Gen:
 
 	def on(self, region: str, p: float) -> bool:
 		if region in REGION_FEATURE and self.excluded():
-			# at most ONE excluded region per member (and its references), so that a finding can be keyed by it
+			# at most ONE special region per member (and its references), so that a finding can be keyed by it
 			return False
 		if region in MALFORMED_REGIONS:
 			p = min(1.0, p * self.boost)
 		return region in self.regions and self.rng.random() < p
 
 	def excluded(self) -> set[str]:
-		return self.feats & set(EXCLUDED_KEYS)
+		return self.feats & SPECIAL_FEATURES
 
 	# -- value steering ---------------------------------------------------------------------
 
@@ -227,12 +227,12 @@ class Gen:
 			if r < 0.9:
 				return 'QQ', NameError('bare')
 			errs = [(m.name, m) for m in self.same if _is_exc(m.val)] + [(f'{m.enum}.{m.name}.value', m) for m in self.other if _is_exc(m.val)]
-			errs = [(t, m) for t, m in errs if len((self.feats | m.feats) & set(EXCLUDED_KEYS)) <= 1]
+			errs = [(t, m) for t, m in errs if len((self.feats | m.feats) & SPECIAL_FEATURES) <= 1]
 			if errs:
 				t, m = self.rng.choice(errs)
 				self.feats |= m.feats
 				return t, m.val
-		cands = [(t, m) for t, m in cands if len((self.feats | m.feats) & set(EXCLUDED_KEYS)) <= 1]
+		cands = [(t, m) for t, m in cands if len((self.feats | m.feats) & SPECIAL_FEATURES) <= 1]
 		if not cands:
 			return None
 		t, m = self.rng.choice(cands)
@@ -894,6 +894,35 @@ def stream_py(ctx: Ctx, cases: list[Case]) -> Stream:
 	return st
 
 
+def stream_unescape(ctx: Ctx) -> Stream:
+	"""`decodeOct` (the decoder `C17.escape_counterexample` is stated with) against CPython's own decoding of a literal body."""
+	rng = ctx.sub_rng('unescape')
+	triples = []
+	for i in range(ctx.scale(300, 3000)):
+		parts = []
+		for _ in range(rng.randint(1, 6)):
+			r = rng.random()
+			if r < 0.45:
+				n = rng.choice([1, 1, 2, 2, 3])
+				digits = ''.join(rng.choice('01234567') for _ in range(n))
+				if n == 3 and digits[0] > '3':
+					digits = rng.choice('0123') + digits[1:]
+				parts.append('\\' + digits)
+			else:
+				parts.append(rng.choice(['a', 'b', '1', '2', '7', '8', '9', '0', ' ', 'x41', 'é']))
+		body = ''.join(parts)
+		try:
+			with warnings.catch_warnings():
+				warnings.simplefilter('ignore')  # `\\777` (> 0o377) still decodes, with a SyntaxWarning
+				real = hx(eval(f"'{body}'", {'__builtins__': {}}))  # noqa: S307 - generated literal
+		except Exception as e:  # noqa: BLE001
+			real = type(e).__name__
+		triples.append(({'class': f'escapes={body.count(chr(92))}', 'body': body}, [f'unesc\t{hx(body)}'], [real]))
+	st = common.correspond('unescape', triples, 'eval', classify=classify_case)
+	st.note = 'bodies of plain and octal-escape pieces (1-3 digits, greedy runs); CPython eval of the quoted body vs decodeOct'
+	return st
+
+
 # ---------------------------------------------------------------------------------------------
 # search on the real code alone
 
@@ -941,7 +970,7 @@ def search_real(ctx: Ctx, app: Any, seen_cases: list[Case]) -> SearchResult:
 	res = SearchResult('exec(e) == eval(e) with equal type, or an application error — real LiteralEvaluator vs CPython eval')
 	rng = ctx.sub_rng('search')
 	cases = list(seen_cases)
-	n = ctx.scale(300, 6000)
+	n = ctx.scale(300, 4500)
 	regions_all = ALL_REGIONS
 	regions_in = ALL_REGIONS - {'triple', 'prefix', 'escape', 'strstr', 'arity'}
 	for i in range(n):
@@ -989,7 +1018,7 @@ def search_real(ctx: Ctx, app: Any, seen_cases: list[Case]) -> SearchResult:
 			if cls == 'value/py-error':
 				k2 = f'value-where-python-raises:{type(py).__name__}'
 				hist[k2] = hist.get(k2, 0) + 1
-			for f in feats & set(EXCLUDED_KEYS):
+			for f in feats & SPECIAL_FEATURES:
 				hist[f'region:{f}'] = hist.get(f'region:{f}', 0) + 1
 			if bad:
 				key = finding_key(feats, real, py)
@@ -1013,18 +1042,13 @@ def search_real(ctx: Ctx, app: Any, seen_cases: list[Case]) -> SearchResult:
 
 
 STATEMENTS = {
-	'sound': "for every expression, environment, fuel and interpretation of float: if CPython with the regions H1-H5 cut out evaluates e to v2 then the folder returns v ~ v2 (same type, same value, string content) or refuses (an application error that is not a wrapped Python exception, or the recursion limit) - induction over the fuel and the flat chains",
-	'agree': "execImpl e = ok v and evalPy e = ok v2 imply v ~ v2, provided CPython's own result on e is the result under the guards H1 (int/int = float(a)/float(b)), H2 (plain quoted string tokens), H3 (str() not applied to a string), H5a (casts have at most one argument)",
-	'refuse': 'inside the guards H1-H5: an error of execImpl is a refusal (OperationNotAllowed, UnresolvedSymbol, an error of type inference, the recursion limit) or CPython raises on e as well',
+	'sound': "for every expression, environment, fuel and interpretation of float: if CPython (0X literals cut out) evaluates e to v2 then the folder returns v ~ v2 (same type, same value, string content) or refuses (an application error that is not a wrapped Python exception, or the recursion limit) - induction over the fuel and the flat chains",
+	'agree': "no guard: execImpl e = ok v and evalPy e = ok v2 imply v ~ v2",
+	'refuse': 'an error of execImpl is a refusal (OperationNotAllowed, UnresolvedSymbol, an error of type inference, the recursion limit) or CPython raises on e as well, as long as no 0X literal is evaluated',
 	'chain': 'evaluating the left-nested tree CPython builds for a flat chain = the left fold over the chain (operand, operation, left to right, first exception wins)',
 	'consistent_bindAll': "executing the Enum bodies top to bottom yields an environment consistent with the folder's member lookup when member keys are distinct (hypothesis Cons is satisfiable)",
-	'agree_unguarded_counterexample': "the property statement without guards is false on the current code (witness str of a string literal)",
-	'strcast_counterexample': "H3 is necessary: str('x') folds to a string whose content still carries the quotes of 'x', CPython gives x",
-	'triple_counterexample': "H2 is necessary: a triple-quoted a plus 'b' folds to content ''a''b, CPython gives ab",
-	'truediv_counterexample': 'H1 is necessary: an interpretation in which int/int is not float(a)/float(b) separates 18014398509481985 / 3',
-	'arity_counterexample': "H5a is necessary: int('12', 16) folds to 12, CPython gives 18",
-	'upperhex_counterexample': 'H4 is necessary for refuse: 0X1F is 31 in CPython, the folder raises a wrapped ValueError',
-	'noarg_counterexample': 'H5b is necessary for refuse: int() is 0 in CPython, the folder raises a wrapped IndexError',
+	'upperhex_counterexample': 'guard H4 is necessary for sound/refuse: 0X1F is 31 in CPython, the folder raises a wrapped ValueError (an application error, allowed by the property)',
+	'escape_counterexample': "joining token texts does not commute with decoding escapes: the bodies \\1 and 2 join to \\12 = one newline character (known finding escape-merge-concat); tokens with a backslash are outside evalPy",
 }
 
 
@@ -1041,21 +1065,21 @@ def run(ctx: Ctx) -> int:
 	cases: list[Case] = []
 	if proof.built:
 		with ctx.timed('observe'):
-			cases = make_cases(ctx, app, 'eval', ctx.scale(300, 4000), ALL_REGIONS, corpus=True)
+			cases = make_cases(ctx, app, 'eval', ctx.scale(300, 3000), ALL_REGIONS, corpus=True)
 		with ctx.timed('oracle_rounds'):
 			rounds = fill_oracles(cases)
 			ctx.notes.append(f'oracle rounds: {rounds}; cases dropped (not encodable): {sum(1 for c in cases if c.error)}')
 		with ctx.timed('correspondence'):
-			streams = [stream_impl(ctx, cases), stream_py(ctx, cases)]
+			streams = [stream_impl(ctx, cases), stream_py(ctx, cases), stream_unescape(ctx)]
 	with ctx.timed('search'):
 		searches = [search_real(ctx, app, cases)]
 	return common.finish(ctx, proof, streams, searches,
 		translate_ok=translate_ok, translate_msg=translate_msg,
 		statements=STATEMENTS,
 		partial={
-			'proved': 'a different value is never produced: agreement of value and type, or refusal, for every expression of the model (literals, unary sign, parentheses, the ten operators in flat chains, casts, member references), for every interpretation of float, under the guards H1-H5',
+			'proved': 'a different value is never produced: agreement of value and type (no guard), or refusal, for every expression of the model (literals without backslash, unary sign, parentheses, the ten operators in flat chains, casts, member references), for every interpretation of float',
 			'correspondence_only': 'that execImpl is LiteralEvaluator on the Procedure machine and evalPy is CPython (incl. floor %, shifts, two\'s-complement bitwise ops, int()/float()/str() spellings)',
-			'search_only': 'the regions H1, H2, H3, H5 exclude and IEEE behaviour of the real floats',
+			'search_only': 'string tokens with escape sequences (known finding escape-merge-concat), prefixed tokens, IEEE behaviour of the real floats',
 		},
 		assumptions=[
 			'float is abstract: the theorems hold for every interpretation of add/sub/mul/div/mod/neg/ofInt/toInt/parse/toStr/truediv; the tie instantiates it with CPython floats',
